@@ -77,8 +77,17 @@ class C12(Spec):
                    "attachment": [asgen.link(rng) for _ in range(rng.randint(0, 4))]}
             ctor = 1 if doc["type"] == "Person" else 0
             items.append(c06.item_case(doc, ctor, [200], list(range(-2, 30))))
+        xitems = [c06.itemx_case({"type": "Note", "content": "<a href=\"https://b.example/1\">body</a>", "attachment": [
+            {"type": "Image", "name": 5, "url": "https://a.example/1.png"}, {"type": "Image", "name": "second", "url": "https://a.example/2.png"}]}, 0, [200, 40], list(range(-1, 8)))]
+        for _ in range(300 if tier == "quick" else 20000):
+            if rng.random() < 0.5:
+                xitems.append(c06.itemx_case(asgen.post(rng, 1, 0.05), 0, [rng.choice((200, 80, 30, 7))], list(range(-1, 12))))
+            else:
+                xitems.append(c06.itemx_case(asgen.actor(rng, 1, 0.05), 1, [rng.choice((200, 80, 30, 7))], list(range(-1, 12))))
+        self.xitems = xitems
         return [Batch("c12", cases, correspondence="Markup.Render + links == render_full"),
-                Batch("c12-items", items, env={"VERIF_CASE_TIMEOUT": "20"}, correspondence="numbers shown by String == numbers SelectLink accepts")]
+                Batch("c12-items", items, env={"VERIF_CASE_TIMEOUT": "20"}, correspondence="numbers shown by String == numbers SelectLink accepts"),
+                Batch("c12-itemx", xitems, env={"VERIF_CASE_TIMEOUT": "20"}, correspondence="Post/Actor Name, String, Preview, SelectLink, Media == Pub model on the constructor's fields")]
 
     def search_batches(self, rng, tier):
         return [Batch("c12-search", self.gen(rng, 5000))]
@@ -86,6 +95,8 @@ class C12(Spec):
     def post_check(self, case, res):
         if case.op == "item":
             return self.item_check(case, res)
+        if case.op == "itemx":
+            return None
         links, outs = parse_result(res["impl"], len(case.meta["widths"]))
         if links is None:
             return None
@@ -144,6 +155,8 @@ class C12(Spec):
     def nontrivial(self, case, res):
         if case.op == "item":
             return True
+        if case.op == "itemx":
+            return bool(res["impl"]) and res["impl"][0] == 0
         links, _ = parse_result(res["impl"], len(case.meta["widths"]))
         return links is not None and len(links) >= 2
 
